@@ -239,16 +239,17 @@ func checkDebits(c *core.Ctx, models []*RunModel) {
 			uncovered := ""
 			how := map[string]bool{}
 			for _, p := range paths {
-				var facts []core.Fact
-				for _, e := range p.Edges {
-					facts = append(facts, c.EdgeFacts(e, 3)...)
+				for _, facts := range factCombos(c, p, 3) {
+					kind := pathCovers(c, m, al, p, facts, a, coin, v, inLoop)
+					if kind == "" {
+						uncovered = describePath(c, p.Edges)
+						break
+					}
+					how[kind] = true
 				}
-				kind := pathCovers(c, m, al, p, facts, a, coin, v, inLoop)
-				if kind == "" {
-					uncovered = describePath(c, p.Edges)
+				if uncovered != "" {
 					break
 				}
-				how[kind] = true
 			}
 			if uncovered == "" {
 				var hs []string
@@ -355,18 +356,83 @@ func pathCovers(c *core.Ctx, m *RunModel, al coinAlias, p core.CFGPath, facts []
 			}
 		}
 	}
+	// facts imported from a helper (f.Depth > 0) speak about the helper's values: they are compared
+	// with the caller's by access path, the helper's parameters rewritten to the caller's arguments
+	cpath := func(v ssa.Value) string {
+		s := al.norm(core.Path(p.Resolve(v)))
+		if strings.Contains(s, "[*]") {
+			return ""
+		}
+		return s
+	}
+	hpath := func(f core.Fact, v ssa.Value) string {
+		s := al.norm(f.Path(v))
+		if strings.Contains(s, "[*]") {
+			return ""
+		}
+		return s
+	}
+	sameAcctF := func(f core.Fact, ga, a ssa.Value) bool {
+		if f.Depth == 0 {
+			return sameAccount(m, ga, a)
+		}
+		if cv := f.CallerValue(ga); cv != nil && sameAccount(m, cv, a) {
+			return true
+		}
+		hp := hpath(f, ga)
+		return hp != "" && (hp == cpath(a) || (m.isTxSender(a) && hp == m.TxPath+".Sender()#0"))
+	}
+	eqF := func(f core.Fact, gc, coin ssa.Value) bool {
+		if f.Depth == 0 {
+			return eq(gc, coin)
+		}
+		if cv := f.CallerValue(gc); cv != nil && eq(cv, coin) {
+			return true
+		}
+		hp, cp := hpath(f, gc), cpath(coin)
+		if hp != "" && hp == cp {
+			return true
+		}
+		// an equality between coin expressions established on this path (in the caller or in a helper)
+		for _, g := range facts {
+			bin, ok := g.Cond.(*ssa.BinOp)
+			if !ok || !((bin.Op == token.EQL && g.Truth) || (bin.Op == token.NEQ && !g.Truth)) {
+				continue
+			}
+			gx, gy := al.norm(g.Path(bin.X)), al.norm(g.Path(bin.Y))
+			if gx == "" || gy == "" {
+				continue
+			}
+			if (gx == hp && gy == cp) || (gy == hp && gx == cp) {
+				return true
+			}
+		}
+		return false
+	}
+	withinF := func(f core.Fact, gx, v ssa.Value) bool {
+		if f.Depth == 0 {
+			return within(p, gx, v, 0)
+		}
+		vp := cpath(v)
+		return core.DependsOn(gx, func(y ssa.Value) bool {
+			if cv := f.CallerValue(y); cv != nil && within(p, cv, v, 0) {
+				return true
+			}
+			return vp != "" && hpath(f, y) == vp
+		})
+	}
 	for _, f := range facts {
 		// helper idiom: checkBalances(ctx, sender, items, commission, gasCoin) == nil
 		if f.ReturnedOK(".checkBalances") {
 			return "Multisend aggregate helper (C02.helper)"
 		}
-		if ga, gc, gx, ok := balanceGate(f); ok && sameAccount(m, ga, a) {
-			if first && eq(gc, coin) && within(p, gx, v, 0) {
+		if ga, gc, gx, ok := balanceGate(f); ok && sameAcctF(f, ga, a) {
+			if first && eqF(f, gc, coin) && withinF(f, gx, v) {
 				return "GetBalance(acct, coin).Cmp(amount ⊒ debit)"
 			}
 			// last-iteration route idiom: the debit happens under `i == lastIteration`, its coin
 			// is the route's loop variable, the gate is on an element of the same route slice
-			if inLoop && idx != nil && strings.Contains(al.norm(core.Path(gc)), "data.Coins[") {
+			if f.Depth == 0 && inLoop && idx != nil && strings.Contains(al.norm(core.Path(gc)), "data.Coins[") {
 				for _, o := range core.Origins(coin) {
 					if strings.Contains(core.Path(o), "data.Coins") {
 						return "route idiom: gate on the route's end coin, debit in the last iteration (weaker: amounts not related)"
@@ -374,8 +440,8 @@ func pathCovers(c *core.Ctx, m *RunModel, al coinAlias, p core.CFGPath, facts []
 				}
 			}
 		}
-		if g, ok := signGate(f); ok && first && sameAccount(m, g.acct, a) && eq(g.coin, coin) {
-			if within(p, g.x, v, 0) || within(p, g.rest, v, 0) {
+		if g, ok := signGate(f); ok && first && sameAcctF(f, g.acct, a) && eqF(f, g.coin, coin) {
+			if withinF(f, g.x, v) || withinF(f, g.rest, v) {
 				return "Sub(GetBalance(acct, coin), fee).Sign() > 0 with debit ⊑ fee or ⊑ the remainder"
 			}
 		}
@@ -432,6 +498,37 @@ func infeasible(facts []core.Fact) bool {
 	return false
 }
 
+// factCombos: the fact sets of one caller path — the facts every decision implies, refined per
+// alternative accepting path of each helper whose outcome the path fixed (core.EdgeFactAlts).
+// The number of combinations is capped; beyond the cap only the common facts are used.
+func factCombos(c *core.Ctx, p core.CFGPath, depth int) [][]core.Fact {
+	var must []core.Fact
+	var groups [][][]core.Fact
+	for _, e := range p.Edges {
+		m, alts := c.EdgeFactAlts(e, depth)
+		must = append(must, m...)
+		if len(alts) > 1 {
+			groups = append(groups, alts)
+		} else if len(alts) == 1 {
+			must = append(must, alts[0]...)
+		}
+	}
+	combos := [][]core.Fact{must}
+	for _, g := range groups {
+		if len(combos)*len(g) > 256 {
+			break
+		}
+		var next [][]core.Fact
+		for _, base := range combos {
+			for _, alt := range g {
+				next = append(next, append(append([]core.Fact{}, base...), alt...))
+			}
+		}
+		combos = next
+	}
+	return combos
+}
+
 // pathwise reports whether pred holds for the facts of every feasible acyclic path to in.
 func pathwise(c *core.Ctx, in ssa.Instruction, depth int, pred func([]core.Fact) bool) (bool, int, string) {
 	paths, ok := core.PathsTo(in, 6000)
@@ -440,16 +537,14 @@ func pathwise(c *core.Ctx, in ssa.Instruction, depth int, pred func([]core.Fact)
 	}
 	n := 0
 	for _, p := range paths {
-		var facts []core.Fact
-		for _, e := range p.Edges {
-			facts = append(facts, c.EdgeFacts(e, depth)...)
-		}
-		if infeasible(facts) {
-			continue
-		}
-		n++
-		if !pred(facts) {
-			return false, n, describePath(c, p.Edges)
+		for _, facts := range factCombos(c, p, depth) {
+			if infeasible(facts) {
+				continue
+			}
+			n++
+			if !pred(facts) {
+				return false, n, describePath(c, p.Edges)
+			}
 		}
 	}
 	return true, n, ""
@@ -463,16 +558,14 @@ func pathwiseP(c *core.Ctx, in ssa.Instruction, depth int, pred func(core.CFGPat
 	}
 	n := 0
 	for _, p := range paths {
-		var facts []core.Fact
-		for _, e := range p.Edges {
-			facts = append(facts, c.EdgeFacts(e, depth)...)
-		}
-		if infeasible(facts) {
-			continue
-		}
-		n++
-		if !pred(p, facts) {
-			return false, n, describePath(c, p.Edges)
+		for _, facts := range factCombos(c, p, depth) {
+			if infeasible(facts) {
+				continue
+			}
+			n++
+			if !pred(p, facts) {
+				return false, n, describePath(c, p.Edges)
+			}
 		}
 	}
 	return true, n, ""
